@@ -808,13 +808,20 @@ pub fn batch_main(args: &[String]) -> i32 {
         }
         // CPU-time limit for this case alone: SIGXCPU ends the process, the parent restarts
         // the batch behind the offending case.
+        // Only the soft limit moves: a lowered hard limit could never be raised again, and the
+        // next case needs a later deadline than this one.
         unsafe {
             let used = cpu_ms() / 1000;
-            let lim = libc::rlimit {
-                rlim_cur: used + cpu_limit + 1,
-                rlim_max: used + cpu_limit + 6,
+            let mut lim = libc::rlimit {
+                rlim_cur: 0,
+                rlim_max: 0,
             };
-            libc::setrlimit(libc::RLIMIT_CPU, &lim);
+            libc::getrlimit(libc::RLIMIT_CPU, &mut lim);
+            lim.rlim_cur = used + cpu_limit + 1;
+            if libc::setrlimit(libc::RLIMIT_CPU, &lim) != 0 {
+                eprintln!("HARNESS-ERROR setrlimit(RLIMIT_CPU) failed");
+                return 2;
+            }
         }
         let src = source(family);
         let measured = measure(&src, *validate);
@@ -841,10 +848,12 @@ pub fn one_main(args: &[String]) -> i32 {
         return 2;
     };
     unsafe {
-        let lim = libc::rlimit {
-            rlim_cur: CPU_CASE_CAP_S + 1,
-            rlim_max: CPU_CASE_CAP_S + 6,
+        let mut lim = libc::rlimit {
+            rlim_cur: 0,
+            rlim_max: 0,
         };
+        libc::getrlimit(libc::RLIMIT_CPU, &mut lim);
+        lim.rlim_cur = CPU_CASE_CAP_S + 1;
         libc::setrlimit(libc::RLIMIT_CPU, &lim);
     }
     let m = measure(&src, validate == "1");
